@@ -9,6 +9,12 @@ CLAIMS = {
  "C01": ("SSA edge-dominance of every secrets-state access by a successful permission check (same caller, documented action, same name); path-enumerated nil-return summary of the check helper; identity value-flow in the server",
          "Structural necessary condition, decided for all inputs and paths: no db.DB operation can read or change the secrets state, and List cannot emit an entry, except on control-flow edges where the permission check for the documented action succeeded for that caller and that name; the check helper cannot return nil unless Allow was true; the server passes the WhoIs identity through unchanged. Does not decide what Allow answers on strings (C07) nor behaviour on concrete databases.",
          "go/types+go/ssa of x/tools v0.50.0; multierr.New/errors.Join nil iff all elements nil; sentinel errors non-nil; docs/api.md is the oracle for the action table", "4/C01"),
+ "C03": ("typestate on SSA CFG paths (mutation => save => tested error before any return), value-flow of the bytes handed to the file writer, edge-dominance on the open path, JSON wire-signature computed from go/types against the frozen v1 signature, reader/writer sibling agreement",
+         "Structural necessary conditions, decided on all paths: no mutator of the persistent state can return without having called the file-writing save and tested its error; what is saved is the live map, wrapped as documented; opening writes only when the file does not exist; the v1 wire layout (keys, encodings, AEAD contexts, key template, schema constant) is unchanged and reader and writer agree. Does not decide state equality after arbitrary histories nor decoding of real old files.",
+         "encoding/json encodes according to the computed shape; tink keyset reader/writer are inverse; the v1 layout is the one documented on db.kv", "4/C03"),
+ "C04": ("who-may-write over resolved callees (file-mutating calls in package db), ordered edge-dominance inside the dependency's atomicfile.WriteFile, rollback typestate matching each forward write with its inverse on the failed-save edge (memory-aware value identity), edge-dominance of the generation bump",
+         "Structural necessary conditions, decided on all paths: the database file is only ever replaced through atomicfile.WriteFile, whose create-temp/write/sync/close/rename order is checked in the source the build resolves; after a failed save every mutator undoes each of its writes and reports an error; the write generation moves only after a successful write; creation fails rather than serve an unsaved store. Does not decide POSIX crash semantics nor partial writes inside package os.",
+         "rename within a directory is atomic, fsync is durable (POSIX); os.File.Write reports short writes; calls outside the module do not touch db's private state", "4/C04"),
 }
 
 def main():
